@@ -3,6 +3,7 @@ plus the Spec of C09 (Spec/Validators.lean) evaluated on what the real code did.
 
 Abstract values (what the generators produce, what crosses the protocol):
     scalar : ("i", int) ("b", bool) ("f", bits64) ("s", [codepoints]) ("y", bytes) ("o", how) ("c", ct, raw) ("t", tid, raw)
+             (ct: a simple ctypes class "i8".."u64" "f32" "f64" "char", or "chars<n>" for the array class `c_char * n`)
     value  : ("S", scalar) | ("L", kind, [scalar], elem_ctype?) | ("A", cls, vk, n, raw|None)
     key    : ("whole",) ("idx", i) ("slice", a, b, c) ("bad",)
     field  : ("int", ik) ("flt", fk) ("char",) ("byte",) ("str", n) ("arr", cls, vk, n) ("strct", tid, size)
@@ -304,6 +305,8 @@ def mat_scalar(W: World, s, alt: int = 0):
     if t == "y":
         return bytearray(s[1]) if alt % 2 else bytes(s[1])
     if t == "c":
+        if s[1].startswith("chars"):          # an instance of the array class `c_char * n` (the `_ctype` of `String(n)`)
+            return (ctypes.c_char * int(s[1][5:])).from_buffer_copy(bytes(s[2]))
         return W.ict[s[1]].from_buffer_copy(bytes(s[2]))
     if t == "t":
         return W.structs[s[1]].from_buffer_copy(bytes(s[2]))
@@ -803,6 +806,23 @@ def str_pool(n: int) -> List[tuple]:
     return out
 
 
+def char_array_pool(n: int) -> List[tuple]:
+    """ctypes instances `c_char * m` for a `String(n)` / `Char` field: of the field's own class (stored as they are, whatever
+    they hold) and of neighbouring lengths (no `str`: refused)"""
+    out = []
+    for raw in (b"ab".ljust(n, b"\0")[:n], bytes(n), b"z" * n, (b"a\0cd" * n)[:n], b"\xc8" * n, (b"q\xe9" * n)[:n],
+                (b"\0" + b"x" * n)[:n]):
+        out.append(("c", f"chars{n}", raw))
+    for m in sorted({max(1, n - 1), n + 1, 1, 2} - {n}):
+        out.append(("c", f"chars{m}", (b"ab" * m)[:m]))
+    seen, res = set(), []
+    for x in out:
+        if x not in seen:
+            seen.add(x)
+            res.append(x)
+    return res
+
+
 def scalar_pool(fty) -> List[tuple]:
     """right-hand sides for a scalar field (key whole) or one element (key idx)"""
     t = fty[0]
@@ -816,7 +836,8 @@ def scalar_pool(fty) -> List[tuple]:
     if t == "flt":
         return float_pool() + int_for_float_pool() + wrong
     if t in ("char", "str"):
-        return str_pool(1 if t == "char" else fty[1]) + wrong
+        n = 1 if t == "char" else fty[1]
+        return str_pool(n) + char_array_pool(n) + wrong
     if t == "strct":
         return [("t", fty[1], bytes(range(1, fty[2] + 1))), ("t", fty[1], bytes(fty[2]))] + wrong
     raise ValueError(fty)
